@@ -16,15 +16,8 @@ def handle (fs : List String) : String :=
   | none => "bad-op"
   | some ops => " ".intercalate ((trace State.init ops).map showStep)
 
-/-- counter-example lines replayed on the implementation on every run (proved in Witness.lean,
-    `default_storage_full_fails`, finding F21 — certmagic.Default.Storage is left at a rejected or
-    merely validated configuration's storage):
-    (a) the very first load, storage module 1, is rejected while provisioning its app;
-    (b) over a running config without a storage module, a load with storage module 1 is rejected at Start;
-    (c) over the same running config, a config with storage module 2 is validated successfully. -/
-def witnessLines : List String :=
-  ["L=0~-~0,1,3,-,-~0:1=1,0,0,-,0,-",
-   "L=0~-~0,1,0,-,-=1,0,0,-,0,0 L=0~-~0,2,5,-,-~0:1=1,0,0,-,0,0",
-   "L=0~-~0,1,0,-,-=1,0,0,-,0,0 V=0~-~0,3,0,-,-~0:2=0,0,0,-,0,-"]
+/-- counter-example lines replayed on the implementation on every run: none — every clause holds
+    at full strength (the former F2 and F21 witnesses are regression cases in corpus/C01) -/
+def witnessLines : List String := []
 
 end CaddyModel.C01
